@@ -990,11 +990,12 @@ class Server:
                 while command is None and received:
                     cmd, rest = received.popleft()
                     f = self.commands_mapping.get(cmd)
+                    # REST applies to the transfer that immediately follows it
+                    if cmd not in ("retr", "stor", "appe"):
+                        connection.restart_offset = 0
                     if f is not None:
                         command = asyncio.create_task(f(connection, rest))
                         pending.add(command)
-                        if cmd not in ("retr", "stor", "appe"):
-                            connection.restart_offset = 0
                     else:
                         message = f"{cmd!r} not implemented"
                         connection.response("502", message)
